@@ -33,6 +33,12 @@ def pair_nocredit(seed, n):
 def ackflood(seed, n):
     return _mk("ackflood", "hc", gen_hc.ackflood_case, n, seed * 101 + 16)
 
+def chanmix(seed, n):
+    return _mk("chanmix", "hc", gen_hc.chanmix_case, n, seed * 101 + 17)
+
+def tswin(seed, n):
+    return _mk("tswin", "hc", gen_hc.tswin_case, n, seed * 101 + 18)
+
 def hostile(seed, n):
     return _mk("hostile", "hc", gen_hc.hostile_case, n, seed * 101 + 6)
 
